@@ -473,8 +473,19 @@ func ownerFormat(stack string) string {
 	return "core"
 }
 
+// repoRoot is the tree under test; core.PanicSite only strips "/repo/".
+var repoRoot = "/repo"
+
+func panicSite(stack string) string {
+	site := core.PanicSite(stack)
+	if repoRoot != "" && repoRoot != "/repo" {
+		site = strings.Replace(site, "@"+strings.TrimSuffix(repoRoot, "/")+"/", "@", 1)
+	}
+	return site
+}
+
 func signature(stack, msg string) (sig, site, class string) {
-	site = core.PanicSite(stack)
+	site = panicSite(stack)
 	class = panicClass(msg)
 	return "panic:" + ownerFormat(stack) + ":" + site + ":" + class, site, class
 }
@@ -508,7 +519,7 @@ func cliRun(c Case, data []byte) cliObs {
 		o := cliObs{Args: append([]string{"fq"}, args...), Exit: res.Exit, Stderr: firstN(string(res.Stderr), 300)}
 		if res.Panic != nil {
 			o.Panic = core.PanicString(res.Panic)
-			o.Site = core.PanicSite(res.PanicStack)
+			o.Site = panicSite(res.PanicStack)
 			o.Bad = true
 			return o
 		}
@@ -551,7 +562,7 @@ func (w *worker) reportPanic(c Case, data []byte, msg, stack string) {
 	}
 	rep := 0
 	for i := 0; i < 5; i++ {
-		if o := standalone(w.state, c, data); o.panicMsg != "" && panicClass(o.panicMsg) == class && core.PanicSite(o.stack) == site {
+		if o := standalone(w.state, c, data); o.panicMsg != "" && panicClass(o.panicMsg) == class && panicSite(o.stack) == site {
 			rep++
 		}
 	}
@@ -660,6 +671,11 @@ func (w *worker) startWatchdog() {
 			if wall < 500*time.Millisecond {
 				continue
 			}
+			if time.Now().After(w.r.Deadline) && !w.inScan.Load() {
+				// do not let one case carry the shard past the tier's budget
+				w.selfRestart("the tier deadline passed during the case", start)
+				continue
+			}
 			el := cpuTime() - cpu0
 			metrics.Read(sample)
 			heap := sample[0].Value.Uint64()
@@ -759,6 +775,7 @@ func (w *worker) saveCarry() {
 
 func newWorker(r *core.Run) *worker {
 	w := &worker{r: r, t: newTally()}
+	repoRoot = r.Repo
 	// the limits only decide between "verdict" and "inconclusive", never an alarm;
 	// 16 workers share the machine, so the live heap ceiling is far below the
 	// 16 GiB address space ceiling that turns a single oversized allocation into a
